@@ -58,7 +58,7 @@ def t_FUNCTION(t):
 
 
 def t_XLERROR(t):
-    r'\#[A-Z0-9\/_]+(\!|\?)?'
+    r'\#(DIV\/0\!|N\/A|NAME\?|NULL\!|NUM\!|REF\!|VALUE\!|ERROR\!|GETTING_DATA)|\#[A-Z0-9\/_]+(\!|\?)?'
     return t
 
 
